@@ -325,8 +325,13 @@ class Box:
         self.wd = os.path.join(self.root, "r%d" % self.n)
         os.makedirs(self.wd)
         for name, content in files.items():
+            if isinstance(content, (list, tuple)) and content and content[0] == "symlink":
+                continue
             with open(os.path.join(self.wd, name), "wb") as fh:
                 fh.write(content.encode("utf-8") if isinstance(content, str) else content)
+        for name, content in files.items():
+            if isinstance(content, (list, tuple)) and content and content[0] == "symlink":
+                os.symlink(content[1], os.path.join(self.wd, name))         # relative link to a sibling file
         return self.wd
 
     def snapshot(self):
@@ -408,6 +413,7 @@ MERGE_CAUSES = {
     "rhs-missing-file": (MERGE_LHS_OK, None, [], True),
     "lhs-missing-file": (None, MERGE_RHS_OK, [], True),
     "mergeat-unmatched": (MERGE_LHS_OK, MERGE_RHS_OK, ["-m", "/a/b/deeper/still"], False),
+    "mergeat-unmatched-search": ("s:\n  - name: web\n", "port: 1\n", ["-m", "/s[name=db]"], True),
     "args-unreadable-config": (MERGE_LHS_OK, MERGE_RHS_OK, ["-c", "@D/noconfig.ini"], True),
     "args-bad-choice": (MERGE_LHS_OK, MERGE_RHS_OK, ["-A", "bogus"], True),
 }
@@ -478,6 +484,30 @@ def prewrite_cases(tier):
                 cases.append({"part": "a", "tool": "merge", "cause": cause, "doc": dname, "files": files,
                               "argv": extra + dargv + ["@D/lhs.yaml", "@D/rhs.yaml"], "target": target,
                               "documented": documented, "backup": "backup" in dname or "-b" in dargv, "stale": stale})
+    # a failing input that is not the last one: a later input that merges cleanly (or is empty) must not
+    # turn the failure into a write-out
+    later = {"then-empty-input": "---\n# nothing more\n", "then-good-input": "z: 9\n"}
+    for cause in ("conflict-array-into-hash", "conflict-hash-into-array", "anchor-conflict-stop", "rhs-invalid-yaml",
+                  "rhs-duplicate-key", "rhs-missing-file", "mergeat-unmatched-search"):
+        lhs, rhs, extra, documented = MERGE_CAUSES[cause]
+        for lname, ltext in later.items():
+            if cause == "mergeat-unmatched-search" and lname != "then-empty-input":
+                continue          # every non-empty later input fails the same way
+            for dname, dargv in dests:
+                if dname == "overwrite-json":
+                    continue
+                files = {"lhs.yaml": lhs, "later.yaml": ltext}
+                if rhs is not None:
+                    files["rhs.yaml"] = rhs
+                target = None
+                if dname.startswith("overwrite-lhs"):
+                    target = "lhs.yaml"
+                elif dname.startswith("overwrite"):
+                    files["target.yaml"] = TARGET_OLD
+                    target = "target.yaml"
+                cases.append({"part": "a", "tool": "merge", "cause": "%s(%s)" % (cause, lname), "doc": dname, "files": files,
+                              "argv": extra + dargv + ["@D/lhs.yaml", "@D/rhs.yaml", "@D/later.yaml"], "target": target,
+                              "documented": documented, "backup": "backup" in dname or "-b" in dargv, "stale": False})
     # stdin as RHS
     for cause in ("conflict-array-into-hash", "anchor-conflict-stop", "rhs-invalid-yaml"):
         lhs, rhs, extra, documented = MERGE_CAUSES[cause]
@@ -592,6 +622,8 @@ def fault_scenarios(tier, seed):
             t = gen.random_tree(rng, max_nodes=8, max_depth=3, keys=("a", "b", "c"))
             if isinstance(t, dict) and t and not isinstance(t, gen.SetT):
                 set_docs.append(("rnd%d" % i, "doc.yaml", c16.to_block(dict(t, a="orig"))))
+    sc.append({"tool": "set", "scenario": "symlinked-doc/value", "files": {"real.yaml": set_docs[0][2], "doc.yaml": ["symlink", "real.yaml"]},
+               "argv": ["-g", "a", "-a", "2", "@D/doc.yaml"], "target": "doc.yaml"})
     for dname, fname, doc in set_docs:
         for oname, argv in set_ops:
             if dname.startswith("rnd") and oname != "value":
@@ -614,6 +646,9 @@ def fault_scenarios(tier, seed):
          ["-M", "matrix_merge", "-D", "json", "-w", "@D/target.json", "@D/lhs.yaml", "@D/rhs.yaml"], "target.json"),
         ("stdin-rhs", {"lhs.yaml": MERGE_LHS_OK, "target.yaml": TARGET_OLD},
          ["-w", "@D/target.yaml", "@D/lhs.yaml", "-"], "target.yaml"),
+        # the --overwrite target is a symbolic link to the real document (read through the link: its bytes are the pre-image)
+        ("symlinked-target", {"lhs.yaml": MERGE_LHS_OK, "rhs.yaml": MERGE_RHS_OK, "real.yaml": TARGET_OLD, "target.yaml": ["symlink", "real.yaml"]},
+         ["-w", "@D/target.yaml", "@D/lhs.yaml", "@D/rhs.yaml"], "target.yaml"),
     ]
     for name, files, argv, target in merges:
         sc.append({"tool": "merge", "scenario": name, "files": files, "argv": argv, "target": target,
